@@ -102,6 +102,20 @@ void build() {
                     scenarios.push_back({b.second, {lists[i], lists[j]}, hints, b.first + " 2x2"});
         }
     }
+    {
+        // group D ("reparent"): three levels with a full inner node; thread A splits a full leaf at the right end, thread R
+        // first splits A's parent and then keeps appending at the right end (the leaf is re-parented more than once),
+        // thread B inserts next to A's key
+        std::vector<int> base = seq(10, 140, 10);
+        for (int a : {125, 135, 145})
+            for (int r1 : {115, 127, 137, 147})
+                for (int q : {4, 8})
+                    for (int b : {105, 123, 133}) {
+                        std::vector<int> r = {r1};
+                        for (int i = 1; i <= q; i++) r.push_back(140 + 10 * i);
+                        scenarios.push_back({base, {{a}, r, {b}}, 0, "reparent-" + std::to_string(q) + " 1+n+1"});
+                    }
+    }
     for (auto& b : bases) {
         std::vector<int> al = alphabet(b.second);
         // group C: 3 threads x 1 insert
